@@ -34,7 +34,8 @@ MANIFEST = dict(
          "(2) table theorems over data regenerated from the working tree on every run: CHelpers/FHelpers/LuaHelpers closed (no KeyError) and "
          "acyclic (kernel-checked rank certificate); every {field} placeholder of every fc/py/lua statement template is a format field that "
          "exists for its entry kind; every iso_c_binding symbol named by a declaration template of a statement entry is supplied by the "
-         "entry's f_module / f_module_line (f_ entries: or by the emitter's literal additions); (3) Header.write_headers and the bracket "
+         "entry's f_module / f_module_line (f_ entries: or by the emitter's literal additions), and every symbol named by a literal "
+         "declaration wrapf.py writes itself (struct members, size/len/capsule arguments) by a set_f_module call of the same block; (3) Header.write_headers and the bracket "
          "lines of the four C wrapper file skeletons are #if/#endif- and extern-C-balanced for every option combination; 'each header at "
          "most once' only as write_headers_includes_once_partial (hypothesis needed, unconditional statement refuted); (4) the Fortran "
          "USE/IMPORT bookkeeping is a merge: exact, monotone, complete, order-independent as a set, and the USE lines list every required "
